@@ -288,6 +288,7 @@ impl Worker {
         // prefer the line naming the violated precondition / assertion when present
         let key = err
             .lines()
+            .rev()
             .find(|l| l.contains("unsafe precondition") || l.contains("PANIC:") || l.contains("panicked") || l.contains("overflow") || l.contains("AddressSanitizer"))
             .map(|l| l.trim().to_string())
             .unwrap_or(line);
